@@ -211,6 +211,28 @@ def check_case(ctx, case):
             except Exception as e:  # noqa: BLE001
                 ctx.violate(f"C04/eq-raises/{cls}/unspecified/{type(e).__name__}", f"{dn!r} == {do!r} raised {e!r}", case)
             n_eval += 1
+    # descriptors are plain objects with writable attributes: after an in-place change the hash has to follow what ==
+    # sees (a memoised hash goes stale). A library that makes the attributes read-only passes by refusing the change.
+    for si in case["s_idx"][:3]:
+        s = T[si]
+        t2 = T[(si + 1) % len(T)]
+        for p in dom:
+            for q in dom:
+                d = mk_desc((cls, s, p))
+                try:
+                    hash(d)
+                    d.parity = q
+                    d.atoms = t2
+                except (AttributeError, TypeError):
+                    ctx.count("descriptors_immutable")
+                    continue
+                fresh_d = objs[(t2, q)]
+                ctx.count("mutated_in_place")
+                try:
+                    if d == fresh_d and hash(d) != hashes[(t2, q)]:
+                        ctx.violate(f"C04/hash/{cls}/stale-after-attribute-change", f"after parity/atoms were reassigned, {d!r} == {fresh_d!r} but the hashes differ", case)
+                except Exception as e:  # noqa: BLE001
+                    ctx.violate(f"C04/eq-raises/{cls}/after-attribute-change/{type(e).__name__}", f"{e!r}", case)
     ctx.count("eq_calls", 2 * n_eval)
     ctx.bulk(n_eval, n_nt)
     ctx.sample({"class": cls, "labels": labels, "placeholder_positions": list(pat), "s": list(T[case["s_idx"][0]]), "n_orderings_t": len(T), "parities": list(dom)}, cap=1)
